@@ -748,7 +748,18 @@ def subst_locals(func_node: ast.AST, expr: ast.AST, depth: int = 3) -> ast.AST:
                     for x in ast.walk(it.optional_vars):
                         if isinstance(x, ast.Name):
                             counts[x.id] = counts.get(x.id, 0) + 2
-    single = {k: v for k, v in vals.items() if counts.get(k) == 1 and k not in params}
+    # a local whose object is changed in place after it was bound (xs = []; xs.append(..)) is not the expression it was bound to
+    mutated = set()
+    for n in ast.walk(func_node):
+        if isinstance(n, ast.Call) and isinstance(n.func, ast.Attribute) and isinstance(n.func.value, ast.Name) and n.func.attr in (
+                "append", "extend", "insert", "add", "update", "clear", "pop", "popitem", "remove", "discard", "setdefault", "sort", "reverse", "appendleft",
+                "write", "writelines", "truncate", "seek"):
+            mutated.add(n.func.value.id)
+        elif isinstance(n, (ast.Assign, ast.AugAssign, ast.Delete)):
+            for t in (n.targets if isinstance(n, (ast.Assign, ast.Delete)) else [n.target]):
+                if isinstance(t, ast.Subscript) and isinstance(t.value, ast.Name):
+                    mutated.add(t.value.id)
+    single = {k: v for k, v in vals.items() if counts.get(k) == 1 and k not in params and k not in mutated}
     # `if c: x = A else: x = B` (the only two assignments of x, one per branch of the same if/else, outside loops) is the
     # conditional expression `A if c else B`
     def _one_assign(block, name):
